@@ -30,6 +30,7 @@ type Gen struct {
 	fdPool    []*FlowDescIntent
 	stopAt    int
 	between   int
+	pending   []func() (Action, bool) // the rest of a composite scenario
 	midStop   bool
 	drainFirst bool
 	mass      int // >0: many sessions with 8 periodic URRs of one period (batch limit)
@@ -293,6 +294,9 @@ func newGen(s *Sim) *Gen {
 			g.mass = 1
 			g.massPeriod = uint32(pick(g.rng, 1, 2, 3))
 			g.w = map[string]int{"est": 30, "modurr": 3, "del": 3, "advshort": 6, "reassoc": 1}
+		}
+		if s.cfg.LogYield > 0 {
+			g.w["tickswap"] = 10
 		}
 	case "C17":
 		g.mode = "clean"
@@ -892,6 +896,13 @@ func (g *Gen) next() (Action, bool) {
 		m := s.smfs[g.n-1]
 		return g.noteSent(Action{Op: "send", SMF: m.Idx, Msg: &MsgIntent{T: "assoc", Seq: g.seq(m)}}), true
 	}
+	for len(g.pending) > 0 {
+		f := g.pending[0]
+		g.pending = g.pending[1:]
+		if a, ok := f(); ok {
+			return g.noteSent(a), true
+		}
+	}
 	for tries := 0; tries < 20; tries++ {
 		if a, ok := g.one(); ok {
 			return g.noteSent(a), true
@@ -930,6 +941,37 @@ func (g *Gen) one() (Action, bool) {
 			return Action{Op: "send", SMF: m.Idx, Msg: g.perioEst(m, slot, 1+g.intn(3), uint32(1+g.intn(2)))}, true
 		}
 		return Action{Op: "send", SMF: m.Idx, Msg: g.estMsg(m, slot)}, true
+	case "tickswap":
+		// aimed at the instant of a tick: a session with one periodic URR of period p, the
+		// clock moved by exactly p (the tick is due a few ns before the next message),
+		// then one message that takes that URR out of its group and puts another in
+		p := uint32(pick(g.rng, 1, 2, 3))
+		g.pending = append(g.pending,
+			func() (Action, bool) { return Action{Op: "adv", Ms: int64(p) * 1000}, true },
+			func() (Action, bool) {
+				x := g.liveOf(m, slot)
+				if x == nil {
+					return Action{}, false
+				}
+				in := &MsgIntent{T: "mod", Seq: g.seq(m), Slot: slot}
+				for _, u := range sortedRefs(x.Req, "urr") {
+					if it := x.Intent[RuleRef{"urr", u}]; it != nil && it.Period != nil && *it.Period == p {
+						in.Remove = append(in.Remove, RuleRef{"urr", u})
+					}
+				}
+				if len(in.Remove) == 0 {
+					return Action{}, false
+				}
+				t, meth := uint32(1), uint8(2)
+				for c := uint32(1); c <= 12; c++ {
+					if !x.Req[RuleRef{"urr", c}] {
+						in.Create = append(in.Create, RuleIntent{Kind: "urr", ID: c, Method: &meth, Trigger: &t, TrigLen: 2, Period: &p, MInfo: u8p(0)})
+						break
+					}
+				}
+				return Action{Op: "send", SMF: m.Idx, Msg: in}, len(in.Create) > 0
+			})
+		return Action{Op: "send", SMF: m.Idx, Msg: g.perioEst(m, slot, 1, p)}, true
 	case "farflip":
 		return g.farFlip()
 	case "modurr":
